@@ -315,7 +315,12 @@ func decodeEvent(op string, entry string, b, h int, in, orig []byte, pan bool, m
 // rtcp.Unmarshal on the same buffer (used for the CompoundPacket cross-check).
 func (s *State) Unmarshal(entry string, b, h int) V { return s.UnmarshalRef(entry, b, h, 0) }
 
-func (s *State) UnmarshalRef(entry string, b, h, dh int) V {
+func (s *State) UnmarshalRef(entry string, b, h, dh int) V { return s.UnmarshalFull(entry, b, h, dh, 0, 0) }
+
+// UnmarshalFull: eqh, when non-zero, names a handle whose packet this result
+// is expected to equal (same bytes up to the declared length, C13).
+// eqb is the buffer that eqh was decoded from.
+func (s *State) UnmarshalFull(entry string, b, h, dh, eqh, eqb int) V {
 	orig := s.Buf[b]
 	in := append([]byte(nil), orig...)
 	p := NewOf(entry)
@@ -332,6 +337,8 @@ func (s *State) UnmarshalRef(entry string, b, h, dh int) V {
 	}
 	ev := decodeEvent("unmarshal", entry, b, h, in, orig, pan, msg, err, alloc, out)
 	ev["dh"] = dh
+	ev["eqh"] = eqh
+	ev["eqb"] = eqb
 	return s.emit(ev)
 }
 
